@@ -265,7 +265,7 @@ func c03Sorted(what string, rows []vBalRow) *vFailure {
 func genC03(t *rapid.T) c03Case {
 	// a small segment alphabet and up to five segments: shared prefixes, chains and forks are the norm
 	s := vGenScenario(t, vScenOpts{Paths: true, MinDays: 1, MaxDays: 4, MaxEntries: 8, NUnknown: 6, MaxRecipes: 9,
-		PathSegs: []string{"a", "b", "c d", "a", "b", "50%", "c%d", ".", ".."}, PathMax: 5})
+		PathSegs: []string{"a", "b", "c d", "a", "b", "50%", "c%d", ".", "..", "a-x", "a b", "c"}, PathMax: 5})
 	c := c03Case{S: s}
 	switch rapid.IntRange(0, 9).Draw(t, "single") {
 	case 0, 1, 2, 3, 4:
